@@ -6,6 +6,7 @@ import (
 	"encoding/hex"
 	"fmt"
 	"os"
+	"regexp"
 	"sort"
 	"strconv"
 	"strings"
@@ -27,6 +28,7 @@ func main() { drv.Main(&brokerDrv{}) }
 
 // inflight publish received from the broker on a session, awaiting acks by the scripted client
 type rxEntry struct {
+	key   string // the rendered packet with the id masked: canonical tie-break
 	op    int
 	tag   string
 	sids  string
@@ -258,7 +260,7 @@ func (d *brokerDrv) collect(inConnOp string) string {
 					}
 				}
 				if !known {
-					sess.rx = append(sess.rx, &rxEntry{op: d.opIndex, tag: payloadTag(pub.Payload), sids: sidsOf(pub),
+					sess.rx = append(sess.rx, &rxEntry{key: maskID(s), op: d.opIndex, tag: payloadTag(pub.Payload), sids: sidsOf(pub),
 						qos: pub.Qos, id: pub.PacketID})
 				}
 			}
@@ -280,6 +282,10 @@ func (d *brokerDrv) collect(inConnOp string) string {
 	}
 	return strings.Join(parts, " ")
 }
+
+var idRe = regexp.MustCompile(`,id=\d+`)
+
+func maskID(s string) string { return idRe.ReplaceAllString(s, ",id=?") }
 
 func (d *brokerDrv) outstanding(sess *session, kind string) []*rxEntry {
 	var es []*rxEntry
@@ -307,7 +313,10 @@ func (d *brokerDrv) outstanding(sess *session, kind string) []*rxEntry {
 		if a.tag != b.tag {
 			return a.tag < b.tag
 		}
-		return a.sids < b.sids
+		if a.sids != b.sids {
+			return a.sids < b.sids
+		}
+		return a.key < b.key
 	})
 	return es
 }
